@@ -171,9 +171,13 @@ class Module(object):
         self.source = source
         self.is_pkg = relpath.endswith('__init__.py')
         try:
-            self.tree = set_parents(ast.parse(source, filename=relpath))
+            tree = ast.parse(source, filename=relpath)
         except SyntaxError as e:
             raise AnalysisError('parse:' + relpath, str(e))
+        # locals are identified by role, not by name (sa/alpha.py)
+        from . import alpha
+        self.renamed_locals = alpha.normalise(tree, relpath)
+        self.tree = set_parents(tree)
         self.imports = {}    # local alias -> fully qualified dotted target
         self.functions = {}  # qualname -> FuncInfo
         self.classes = {}    # qualname -> ClassInfo
